@@ -104,6 +104,10 @@ bool index_read(zckCtx *zck, char *data, size_t size, size_t max_length) {
             /* same size for digest as compressed */
             new->digest_uncompressed = zmalloc(zck->index.digest_size);
             if (!new->digest_uncompressed) {
+                /* new may already be in the digest table */
+                HASH_FIND(hh, zck->index.ht, new->digest, new->digest_size, tmp);
+                if(tmp == new)
+                    HASH_DELETE(hh, zck->index.ht, new);
                 free(new->digest);
                 free(new);
                 zck_log(ZCK_LOG_ERROR, "OOM in %s", __func__);
